@@ -16,7 +16,9 @@ from props import c19  # noqa: E402
 
 KINDS = [None, 'table', 'graph', 'csv']
 TEXTS = ['', 'a\n', 'a\nb', 'a\r\nb\r\n', 'x\ry\n', 'été\n日本\n', ' lead\ntrail \n', 'a\n\n', '\n', 'tab\tbed\n',
-         'line one\nline two\nline three\n', 'a\x0cb\n', 'p q\n']
+         'line one\nline two\nline three\n', 'a\x0cb\n', 'p q\n',
+         # blank and white-space-only lines at either end (what per-line stripping leaves alone and whole-text stripping eats)
+         '\n\nabc\n', 'abc\n\n\n', '  \nabc\n  \n', '\t\nx\n', ' \n \n']
 
 
 EXTRA_DTYPES = ['uint8', 'uint16', 'uint32', 'uint64', 'int8', 'int16', 'int32', 'float32', 'bool', 'boolean', 'Int64', 'UInt32',
@@ -65,7 +67,8 @@ def gen_history(rng):
             else:
                 o['actual'] = rng.choice(TEXTS) if rng.random() < 0.8 else ''.join(rng.choice('ab\n\r ') for _ in range(rng.randint(0, 8)))
                 if rng.random() < 0.25:
-                    o['opts'] = rng.choice([{'lstrip': True}, {'rstrip': True}, {'ignore_substrings': ['a']},
+                    o['opts'] = rng.choice([{'lstrip': True}, {'rstrip': True}, {'lstrip': True, 'rstrip': True}, {'rstrip': True},
+                                            {'ignore_substrings': ['a']},
                                             {'remove_lines': ['b']}, {'ignore_patterns': [r'\d+']},
                                             {'max_permutation_cases': 2}])
             ops.append(o)
@@ -221,7 +224,7 @@ class C10(core.Prop):
             # the pytest spellings: --write-all, --write KIND [KIND ...] (kinds separate or comma-separated), --wquiet
             write = None
             if rng.random() < 0.7:
-                write = [rng.choice(['table', 'graph', 'csv', 'table,graph', 'a,b', 'graph,csv']) for _ in range(rng.randint(1, 2))]
+                write = [rng.choice(['table', 'graph', 'csv', 'table,graph', 'a,b', 'graph,csv', 'Graph', 'CSV,table']) for _ in range(rng.randint(1, 2))]
             return {'kind': 'pytest_opts', 'write_all': rng.random() < 0.5, 'write': write, 'wquiet': rng.random() < 0.3}
         if rng.random() < 0.25:
             return {'kind': 'cmdline', 'argv': c19.gen_argv(rng, 'doc')}
@@ -235,15 +238,30 @@ class C10(core.Prop):
     def _pre(self, case):
         return {k: {e: bytes(v) for e, v in d.items()} for k, d in case['pre'].items()}
 
-    PYTEST_KINDS = ['table', 'graph', 'csv', 'a', 'b', 'other']
+    PYTEST_KINDS = ['table', 'graph', 'csv', 'a', 'b', 'other', 'Graph', 'CSV']
+
+    def _registered_options(self):
+        """the options referencepytest.addoption registers, with their keyword arguments (a parser stand-in records them)"""
+        from tdda.referencetest import referencepytest
+        seen = {}
+
+        class _Parser:
+            def addoption(self_, name, **kw):
+                seen[name] = kw
+        referencepytest.addoption(_Parser())
+        return seen
 
     def _pytest_ref(self, case):
         """the regeneration decisions after referencepytest.ref(request) on an empty table"""
         from tdda.referencetest import referencepytest
 
+        opts = self._registered_options()
+        conv = (opts.get('--write') or {}).get('type')
+        write = case['write'] if (case['write'] is None or conv is None) else [conv(w) for w in case['write']]
+
         class _Cfg:
             def getoption(self_, name, default=None):
-                return {'--write-all': case['write_all'], '--write': case['write'], '--wquiet': case['wquiet']}.get(name, default)
+                return {'--write-all': case['write_all'], '--write': write, '--wquiet': case['wquiet']}.get(name, default)
 
         class _Req:
             config = _Cfg()
@@ -314,35 +332,19 @@ class C10(core.Prop):
         F = []
         fail = lambda clause, detail, key=None: F.append(core.Failure(clause, case, detail, key or clause))
         if case['kind'] == 'pytest_opts':
-            from tdda.referencetest import referencepytest
-
-            class _Cfg:
-                def getoption(self_, name, default=None):
-                    return {'--write-all': case['write_all'], '--write': case['write'], '--wquiet': case['wquiet']}.get(name, default)
-
-            class _Req:
-                config = _Cfg()
-            saved = dict(ReferenceTest.regenerate)
-            saved_verbose = ReferenceTest.verbose
-            ReferenceTest.regenerate.clear()
-            try:
-                try:
-                    referencepytest.ref(_Req())
-                except Exception as e:   # noqa
-                    fail('pytest-ref-raises', repr(e))
-                    return F
-                table = dict(ReferenceTest.regenerate)
-            finally:
-                ReferenceTest.regenerate.clear()
-                ReferenceTest.regenerate.update(saved)
-                ReferenceTest.verbose = saved_verbose
+            got = self._pytest_ref(case)
+            if 'exc' in got:
+                fail('pytest-ref-raises', got['exc'])
+                return F
             named = [k for w_ in (case['write'] or []) for k in w_.split(',')]
-            for k in ['table', 'graph', 'csv', 'a', 'b', 'other']:
+            for k, g in zip(self.PYTEST_KINDS, got['regen']):
                 w = case['write_all'] or k in named
-                g = should(table, k)
                 if bool(g) != w:
-                    fail('pytest-table', 'pytest options %r: kind %r regenerated=%s expected %s (table %r)'
-                         % ({k_: case[k_] for k_ in ('write_all', 'write')}, k, g, w, table))
+                    fail('pytest-table', 'pytest options %r: kind %r regenerated=%s expected %s'
+                         % ({k_: case[k_] for k_ in ('write_all', 'write')}, k, g, w))
+            if bool(got['unnamed']) != bool(case['write_all']):
+                fail('pytest-table', 'pytest options %r: assertions without a kind regenerated=%s'
+                     % ({k_: case[k_] for k_ in ('write_all', 'write')}, got['unnamed']))
             return F
         if case['kind'] == 'cmdline':
             argv = case['argv']
